@@ -14,6 +14,7 @@ from sim.engines import render as R
 def default_params(tier):
     p = progmod.default_params(tier, forbid=["provide", "inject_default"])
     p["budget_mult"] = 5000
+    p["loop_ladder"] = 8
     p["py_entry"] = 6
     p["max_prefix"] = 3
     return p
